@@ -75,19 +75,18 @@ def clamp(x, L):
     return z3.If(x < 0, z3.IntVal(0), z3.If(x > L, L, x))
 
 
-_orig_len = Lib.b_len
+_orig_len_value = Lib.len_value
 
 
-def _b_len(self, ex, st, node):
-    v = ex.ev(st, node.args[0])
-    if v.t is BSTR or (isinstance(v.t, TPy) and v.t.what == "bstr"):
+def _len_value(self, ex, st, v, node):
+    if isinstance(v.t, TPy) and v.t.what == "bstr":
         return SV(INT, v.py["len"])
     if v.t == PEP:
         return SV(INT, PU(ex)["len"](v.z))
-    return _orig_len(self, ex, st, node)
+    return _orig_len_value(self, ex, st, v, node)
 
 
-Lib.b_len = _b_len
+Lib.len_value = _len_value
 
 _orig_sub = Lib.subscript
 
